@@ -573,7 +573,7 @@ func (s *splitter) node(m *model.Node, keyLeaves map[string]bool, depth int) (*m
 			if n < 2 {
 				wMulti = 0
 			}
-			wGuard := 10
+			wGuard := 14
 			if s.compat {
 				wGuard = 0
 			}
@@ -643,7 +643,7 @@ func (s *splitter) node(m *model.Node, keyLeaves map[string]bool, depth int) (*m
 			if n == 0 {
 				continue
 			}
-			wSplit, wPart, wPerm := s.fw(model.FUList, 15), s.fw(model.FUList, s.lw(14)), s.fw(model.FUList, s.lw(6))
+			wSplit, wPart, wPerm := s.fw(model.FUList, 15), s.fw(model.FUList, s.lw(24)), s.fw(model.FUList, s.lw(10))
 			if n < 2 {
 				wSplit, wPart, wPerm = 0, 0, 0
 			}
